@@ -4,13 +4,20 @@ import OW.Sim.Join
 import OW.Props.C04
 import OW.Props.C05Facts
 /-!
-C05 — concurrent cell and model execution is race-free and schedule-independent.
+C05 — concurrent cell and model execution is race-free and schedule-independent. Core Lean only.
 
-Generic part (this section): theorems about `OW.Sim.Interleave` (atomic steps with declared footprints over a shared
-memory, tasks = lists of steps, all interleavings). Core Lean only.
+* T1 `steps_commute`, T2 `disjoint_interleaving` (+ `disjoint_interleaving_view`, `same_view_in_all_interleavings`,
+  `perm_runList`): theorems about `OW.Sim.Interleave` (atomic steps with declared footprints over a shared memory,
+  tasks = lists of steps, ALL interleavings);
+* T3 `cells_disjoint`, `cells_schedule_independent`, `cells_any_interleaving(_arrays)`: the instance on the wrapper
+  semantics `OW.Sim.cellStep` / `runCells` (C04), via `OW.Sim.CellTasks`;
+* T4 `join_complete` (+ `sender_never_stuck`, `join_progress`, `return_only_after_all_finished`,
+  `last_receive_after_all_finished`): the `doneChan` transition system `OW.Sim.Join`, for every N;
+* tie A (`OW.Props.C05Facts`, imported): `current_run_facts_ok` on the facts regenerated from the source.
 
 TRUSTED, not proved here (Go memory model): a data-race-free Go program behaves like some interleaving of atomic
-steps of its goroutines; a channel receive happens after the matching send; the Go scheduler.
+steps of its goroutines; a channel receive happens after the matching send; the Go scheduler. The theorems are about
+the footprints of the MODEL; the property is partial by nature for this technique.
 -/
 namespace OW.Props.C05
 open OW.Sim.Interleave
